@@ -34,36 +34,36 @@ Qed.
 
 (* what a handler call can do to the server state and to the ControlConnection *)
 Inductive auth_result (keep : bool) (s : srv) (c : cc) (a : N) (m : hs) : srv -> cc -> aresp -> Prop :=
-| AR_gated : black s a = true \/ banned s a = true \/ (h_cid m = 0 /\ rl_deny s = true) ->
+| AR_gated : blocked s a = true \/ banned s a = true \/ (h_cid m = 0 /\ rl_deny s = true) ->
     auth_result keep s c a m s c AFail
-| AR_new : black s a = false -> banned s a = false -> h_cid m = 0 -> rl_deny s = false -> h_new m = true ->
+| AR_new : blocked s a = false -> banned s a = false -> h_cid m = 0 -> rl_deny s = false -> h_new m = true ->
     auth_result keep s c a m (first_state keep s a)
       {| authed := true; ccid := next_id s; pending := pending c |} (ASuccessNew (next_id s))
-| AR_unknown : black s a = false -> banned s a = false -> clients s (h_cid m) = None ->
+| AR_unknown : blocked s a = false -> banned s a = false -> clients s (h_cid m) = None ->
     auth_result keep s c a m (record_failure s a) c AFail
-| AR_expired : forall cl, black s a = false -> banned s a = false -> clients s (h_cid m) = Some cl -> expired cl = true ->
+| AR_expired : forall cl, blocked s a = false -> banned s a = false -> clients s (h_cid m) = Some cl -> expired cl = true ->
     auth_result keep s c a m s c AFail
-| AR_phase1 : forall cl, black s a = false -> banned s a = false -> clients s (h_cid m) = Some cl -> expired cl = false ->
+| AR_phase1 : forall cl, blocked s a = false -> banned s a = false -> clients s (h_cid m) = Some cl -> expired cl = false ->
     h_resp m = None -> stored cl <> CEmpty ->
     auth_result keep s c a m (bump_nonce s) {| authed := authed c; ccid := ccid c; pending := Some (next_nonce s) |}
       (AChallenge (next_nonce s))
-| AR_nochal : forall cl r, black s a = false -> banned s a = false -> clients s (h_cid m) = Some cl -> expired cl = false ->
+| AR_nochal : forall cl r, blocked s a = false -> banned s a = false -> clients s (h_cid m) = Some cl -> expired cl = false ->
     h_resp m = Some r -> pending c = None ->
     auth_result keep s c a m (record_failure s a) c AFail
-| AR_ok : forall cl sec ch, black s a = false -> banned s a = false -> clients s (h_cid m) = Some cl -> expired cl = false ->
+| AR_ok : forall cl sec ch, blocked s a = false -> banned s a = false -> clients s (h_cid m) = Some cl -> expired cl = false ->
     stored cl = CKey sec -> h_resp m = Some (hmac sec ch) -> pending c = Some ch ->
     auth_result keep s c a m (clear_fails s a) {| authed := true; ccid := h_cid m; pending := None |} ASuccess
-| AR_bad : forall cl ch r, black s a = false -> banned s a = false -> clients s (h_cid m) = Some cl -> expired cl = false ->
+| AR_bad : forall cl ch r, blocked s a = false -> banned s a = false -> clients s (h_cid m) = Some cl -> expired cl = false ->
     h_resp m = Some r -> pending c = Some ch -> (forall sec, stored cl = CKey sec -> r <> hmac sec ch) ->
     auth_result keep s c a m (record_failure s a) {| authed := authed c; ccid := ccid c; pending := None |} AFail
-| AR_noconf : forall cl, black s a = false -> banned s a = false -> clients s (h_cid m) = Some cl -> expired cl = false ->
+| AR_noconf : forall cl, blocked s a = false -> banned s a = false -> clients s (h_cid m) = Some cl -> expired cl = false ->
     h_resp m = None -> stored cl = CEmpty ->
     auth_result keep s c a m s c AFail.
 
 Lemma auth_cases keep s c a m : let '(s1, c1, ar) := auth keep s c a m in auth_result keep s c a m s1 c1 ar.
 Proof.
   unfold Auth.auth.
-  destruct (black s a) eqn:Hb; [apply AR_gated; auto|].
+  destruct (blocked s a) eqn:Hb; [apply AR_gated; auto|].
   destruct (banned s a) eqn:Hn; [apply AR_gated; auto|].
   destruct (h_cid m =? 0) eqn:H0; cbn [andb].
   - apply N.eqb_eq in H0.
@@ -366,6 +366,9 @@ Proof.
   - split; [exact Hf|]. eapply idx_inv_ext; [| |exact Hinv]; reflexivity.
   - split; [exact Hf|]. eapply idx_inv_ext; [| |exact Hinv]; reflexivity.
   - split; [exact Hf|]. eapply idx_inv_ext; [| |exact Hinv]; reflexivity.
+  - split; [exact Hf|]. eapply idx_inv_ext; [| |exact Hinv]; reflexivity.
+  - split; [exact Hf|]. eapply idx_inv_ext; [| |exact Hinv]; reflexivity.
+  - (* ERestart *) split; [destruct lapsed; exact Hf|intros x j Hx; discriminate].
   - (* EExpire *) destruct (clients s x) as [cl|] eqn:Hc; [|exact (conj Hf Hinv)]. split.
     + intros y Hy. cbn in *. unfold upd. destruct (N.eqb_spec y x) as [->|_]; [|apply Hf; exact Hy].
       rewrite (Hf _ Hy) in Hc. discriminate.
@@ -423,7 +426,7 @@ Proof. intro H. destruct (run_wf v es init init_wf) as [_ Hinv]. apply (Hinv _ _
 
 (* what counts as a proof of identity x by message m on connection k in state s *)
 Definition proof_step (s : srv) (k : N) (m : hs) (x : N) : Prop :=
-  exists cn, conns s k = Some cn /\ black s (c_addr cn) = false /\ banned s (c_addr cn) = false /\
+  exists cn, conns s k = Some cn /\ blocked s (c_addr cn) = false /\ banned s (c_addr cn) = false /\
   ( (h_cid m = 0 /\ h_new m = true /\ rl_deny s = false /\ x = next_id s /\ clients s x = None)
     \/ (h_cid m = x /\ exists cl sec ch, clients s x = Some cl /\ expired cl = false /\ stored cl = CKey sec /\
         pending_of s k = Some ch /\ h_resp m = Some (hmac sec ch)) ).
@@ -476,6 +479,7 @@ Proof.
   intros Hw Ha. destruct e; cbn [Auth.step fst] in Ha; try (left; exact Ha).
   - destruct (handle_authed_justified _ _ _ _ _ _ Hw Ha) as [H|(-> & h & -> & H)]; [left; exact H|].
     right. exists h. auto.
+  - (* ERestart *) exfalso. destruct Ha as (cn & c & H1 & _). destruct lapsed; discriminate.
   - (* EExpire *) left. destruct (clients s x0); exact Ha.
   - (* EDelAnon *) left. destruct (v_anon_delete v); exact Ha.
   - (* ERekey *) left. unfold rekey in Ha. destruct (clients s x0); exact Ha.
@@ -580,14 +584,14 @@ Proof.
 Qed.
 
 Theorem gated v s k h cn :
-  wf s -> conns s k = Some cn -> (black s (c_addr cn) = true \/ banned s (c_addr cn) = true) ->
+  wf s -> conns s k = Some cn -> (blocked s (c_addr cn) = true \/ banned s (c_addr cn) = true) ->
   o_auth (snd (handle v s k (Some h))) = Some AFail /\ inert s (fst (handle v s k (Some h))) /\
   pending_of (fst (handle v s k (Some h))) k = pending_of s k.
 Proof.
   intros [Hf Hinv] Hc Hg.
   set (c0 := match c_cc cn with Some c => c | None => new_cc end).
   assert (Hau : auth (v_first_keeps v) s c0 (c_addr cn) h = (s, c0, AFail)).
-  { unfold Auth.auth. destruct Hg as [Hg|Hg]; rewrite Hg; [reflexivity|]. destruct (black s (c_addr cn)); reflexivity. }
+  { unfold Auth.auth. destruct Hg as [Hg|Hg]; rewrite Hg; [reflexivity|]. destruct (blocked s (c_addr cn)); reflexivity. }
   split; [apply (handle_out_auth v s k h cn Hc _ _ _ Hau)|].
   destruct (handle_shape v s k h cn Hc s c0 AFail Hau) as [He|(_ & _ & _ & Hne)]; [|contradiction].
   rewrite He.
@@ -670,4 +674,28 @@ Proof.
     split; [reflexivity|]. eexists. eexists. eexists. split; [vm_compute; reflexivity|].
     split; [vm_compute; reflexivity|]. split; [vm_compute; reflexivity|]. split; vm_compute; reflexivity. }
   vm_compute. reflexivity.
+Qed.
+
+Lemma k_cidr_ne a a' : (k_cidr a =? k_ip a') = false.
+Proof. apply N.eqb_neq. unfold k_cidr, k_ip. lia. Qed.
+Lemma k_ip_ne a a' : a <> a' -> (k_ip a =? k_ip a') = false.
+Proof. intro H. apply N.eqb_neq. unfold k_ip. lia. Qed.
+
+(* a restart keeps the blacklist gate (and the client table) and drops every connection; with a lapsed short-lived
+   entry for a', only the exact-IP entry of a' is gone — CIDR entries and every other address are untouched *)
+Lemma restart_keeps_blacklist hmac mf pb v s lapsed a :
+  let s' := fst (step hmac mf pb v s (ERestart lapsed)) in
+  (lapsed = None -> blocked s' a = blocked s a) /\
+  (black s (k_cidr a) = true -> blocked s' a = true) /\
+  (forall a', lapsed = Some a' -> a <> a' -> blocked s' a = blocked s a) /\
+  (forall k, conns s' k = None) /\ (forall x, index s' x = None) /\ clients s' = clients s.
+Proof.
+  cbv zeta. split; [intros ->; reflexivity|]. split.
+  { intro H. destruct lapsed as [a'|]; unfold blocked; cbn [Auth.step fst restart black set_black]; unfold upd.
+    - rewrite (k_cidr_ne a a'), H. apply orb_true_r.
+    - rewrite H. apply orb_true_r. }
+  split.
+  { intros a' -> Hne. unfold blocked; cbn [Auth.step fst restart black set_black]; unfold upd.
+    rewrite (k_cidr_ne a a'), (k_ip_ne a a' Hne). reflexivity. }
+  destruct lapsed; cbn; auto.
 Qed.
